@@ -124,7 +124,9 @@ class ClientAuthenticator:
                 self.authenticated = True
 
     def _auth_AGREE_UNIX_FD(self, line):
-        if self.unixFDSupport:
+        # only meaningful in answer to our NEGOTIATE_UNIX_FD, which is sent
+        # after the server's OK (self.guid is set by then)
+        if self.unixFDSupport and self.guid is not None:
             self.sendAuthMessage(b'BEGIN')
             self.authenticated = True
         else:
